@@ -157,6 +157,8 @@ ASSERT_COUNTED = ("Overflow(Add)", "Overflow(Mul)", "Overflow(Shl)", "Overflow(S
 
 
 class Site:
+    ctx = None
+
     def __init__(self, fa, bb, kind, detail, ops):
         self.fa, self.bb, self.kind, self.detail, self.ops = fa, bb, kind, detail, ops
         self.fn = fn_of(fa.body.name)
@@ -183,7 +185,20 @@ class Site:
         # keep only maximal paths
         ps = sorted(leaves)
         ps = [p for p in ps if not any(q != p and q.startswith(p + ".") for q in ps)]
-        return "%s{%s}" % (self.detail, ",".join(ps))
+        # arithmetic shape of the operands (linear form over parameters / loop counter) where it
+        # exists: an A3/A4 entry lapses when the arithmetic changes, not when a local is renamed
+        shape = ""
+        if self.kind in ("assert", "index") and self.ctx is not None:
+            forms = []
+            for o in (self.ops[1:] if self.kind == "index" else self.ops):
+                l_ = lin(self.ctx, o)
+                if l_ is not None and all(isinstance(k, (str, int)) for k in l_) and len(l_) <= 4 and all(not (isinstance(k, str) and ("(" in k or "@" in k)) for k in l_):
+                    forms.append("+".join("%s*%s" % (v, k) for k, v in sorted(l_.items(), key=lambda kv: str(kv[0])) if v != 0) or "0")
+                else:
+                    forms.append("?")
+            if any(f != "?" for f in forms):
+                shape = "#" + ";".join(forms)
+        return "%s{%s}%s" % (self.detail, ",".join(ps), shape)
 
     def key(self):
         return "%s|%s|%s" % (self.fn, self.kind, self.coarse())
@@ -495,6 +510,7 @@ def load_table():
 
 
 def panic_rule(ctx, prop, rule, entries, floor=0, skip_fns=(), only_fn=None):
+    Site.ctx = ctx
     names = closure_of(ctx, entries)
     table = load_table()
     n_sites = n_counted = 0
